@@ -49,24 +49,34 @@ Definition check_stage (m : res (Z * raw)) (o : obs) : bool :=
   | _, _ => false
   end.
 
-(* stage 0 = first construction (no edits); stage i+1 = RawMeshData(mesh_i), the recorded edits, instantiated again with
-   the same dim override *)
-Fixpoint check_stages (c : cfg) (dim : option Z) (m : res (Z * raw)) (os : list (list edit * obs)) : bool :=
+(* stage 0 = first construction (no edits) of the raw data `cur`; stage i+1 = the recorded edits applied to
+   RawMeshData(mesh_i) when stage i succeeded, or to the very same raw data object as it was left behind when stage i raised
+   (retry), instantiated with the same dim override *)
+Fixpoint check_stages (c : cfg) (dim : option Z) (cur : raw) (m : res (Z * raw)) (os : list (list edit * obs)) : bool :=
   match os with
   | [] => true
   | (_, o) :: t =>
       check_stage m o &&
       match t with
       | [] => true
-      | (es, _) :: _ => match m with
-                        | Ok (k, r) => check_stages c dim (rebuild c dim es k r) t
-                        | Err _ => false
-                        end
+      | (es, _) :: _ =>
+          let next := match m with
+                      | Ok (k, r) => apply_edits es (rewrap k r)
+                      | Err _ => apply_edits es (prepare_left c cur)
+                      end in
+          check_stages c dim next (instanciate c dim next) t
       end
   end.
 
 Definition check_case (x : cfg * input * list (list edit * obs)) : bool :=
   match x with
-  | (c, IRaw dim r, os) => check_stages c dim (instanciate c dim r) os
-  | (c, IArr w V E F C, os) => check_stages c None (from_arrays c w V E F C) os
+  | (c, IRaw dim r, os) => check_stages c dim r (instanciate c dim r) os
+  | (c, IArr w V E F C, os) =>
+      match os with
+      | [(_, o)] => check_stage (from_arrays c w V E F C) o
+      | _ => match from_arrays c w V E F C with
+             | Ok (k, r) => check_stages c None r (Ok (k, r)) os   (* (cur is only used after a failure) *)
+             | Err e => match os with (_, o) :: _ => check_stage (Err e) o | [] => true end
+             end
+      end
   end.
